@@ -239,6 +239,11 @@ func ParseContractFile(path string) (*ContractFile, error) {
 			// forgotten, its result is unknown): neither inlined nor used by contract, so
 			// its preconditions are not obligations of this function
 			d.Kind, d.CallText = "havoccall", normCallText(strings.TrimSpace(strings.TrimPrefix(text, "havoc call ")))
+		case strings.HasPrefix(text, "frame call "):
+			// ASSUMPTION (listed in the evidence): the named call, which is code outside the
+			// engine's view (an interface method of a user-supplied object, say), changes
+			// none of the memory this function's contract talks about; its result is unknown
+			d.Kind, d.CallText = "framecall", normCallText(strings.TrimSpace(strings.TrimPrefix(text, "frame call ")))
 		case strings.HasPrefix(text, "before return"):
 			m := reBefRet.FindStringSubmatch(text)
 			if m == nil {
@@ -530,6 +535,9 @@ func pvc_havoc[T any](x *T)      {}
 
 // pvc_suffix(a, b): a is a tail of b (same memory, same end), or empty.
 func pvc_suffix(a, b []byte) bool { return true }
+
+// pvc_same(a, b): the same byte string.
+func pvc_same(a, b []byte) bool { return true }
 
 // pvc_local(s): s is nil/empty-capacity or lives in memory this function allocated
 // itself (so it cannot overlap anything that existed when the function was entered).
